@@ -28,12 +28,19 @@ Theorem C07_rows_realisable : forall i, consistent i = true ->
 Proof. exact rows_realisable. Qed.
 Print Assumptions C07_rows_realisable.
 
-(* the permission and attribute bits regenerated from the Go source equal the frozen reference values *)
+(* the permission and attribute bits regenerated from the Go source equal the frozen reference values — in the default
+   build the harness links AND in every build configuration gosync translates ([build]: Default = Gen/Consts_default.v,
+   Docker = Gen/Consts_docker.v, the production build -tags docker): [build_words c] lists the same 19 constants in the
+   same order as that build has them, [use_real_desc c] is its USE_REAL_DESC_FOR_HIDDEN_BOARD_IN_MYFAV. A change of
+   either configuration file that moves one of them breaks this obligation. *)
 Theorem C07_constants :
   PERM_BASIC = 1 /\ PERM_LOGINOK = 16 /\ PERM_BM = 1024 /\ PERM_BOARD = 8192 /\ PERM_SYSOP = 16384 /\
   PERM_NOCITIZEN = 4194304 /\ PERM_POLICE_MAN = 268435456 /\ PERM_POLICE = 2147483648 /\
   BRD_GROUPBOARD = 8 /\ BRD_HIDE = 16 /\ BRD_POSTMASK = 32 /\ BRD_SYMBOLIC = 32768 /\ BRD_OVER18 = 16777216 /\
-  NBRD_INVALID = 0 /\ NBRD_FAV = 1 /\ NBRD_BOARD = 2 /\ NBRD_LINE = 4 /\ NBRD_FOLDER = 8 /\ USE_REAL_DESC = 0.
+  NBRD_INVALID = 0 /\ NBRD_FAV = 1 /\ NBRD_BOARD = 2 /\ NBRD_LINE = 4 /\ NBRD_FOLDER = 8 /\ USE_REAL_DESC = 0 /\
+  (forall c : build, build_words c =
+     [1; 16; 1024; 8192; 16384; 4194304; 268435456; 2147483648; 8; 16; 32; 32768; 16777216; 0; 1; 2; 4; 8; 0]) /\
+  (forall c : build, use_real_desc c = 0).
 Proof. exact constants. Qed.
 Print Assumptions C07_constants.
 
@@ -125,6 +132,24 @@ Theorem C07_summary_title : forall u b,
   s_title (load_board_summary u b) = may_list (row u b) /\ s_bid (load_board_summary u b) = b_bid b.
 Proof. exact summary_title. Qed.
 Print Assumptions C07_summary_title.
+
+(* the same in EVERY build configuration ([load_board_summary_in c]: LoadBoardSummary compiled with the options of build
+   c — the production build -tags docker included): the title is revealed exactly when the caller may list the board; and
+   no entry of a listing depends on a build option at all (the entries of a listing are of boards the caller may list, by
+   C07_listing / C07_class_listing, and for those the summary is the same function whatever the option) *)
+Theorem C07_summary_title_every_build : forall c : build,
+  (forall u b, s_title (load_board_summary_in c u b) = may_list (row u b) /\ s_bid (load_board_summary_in c u b) = b_bid b) /\
+  (forall pf u b, may_list (row u b) = true -> summarize_with (use_real_desc c) pf u b = summarize pf u b).
+Proof. exact every_build. Qed.
+Print Assumptions C07_summary_title_every_build.
+
+(* ... and the guarantee holds for a build EXACTLY when its option USE_REAL_DESC_FOR_HIDDEN_BOARD_IN_MYFAV is off
+   ([load_board_summary_with urd]: the function compiled with the option at urd): a configuration that switches it on
+   reveals the title of an unreadable board, so the value of the option in each build is part of the property *)
+Theorem C07_summary_title_iff_option_off : forall urd : Z,
+  (forall u b, s_title (load_board_summary_with urd u b) = may_list (row u b)) <-> urd = 0.
+Proof. exact summary_title_iff_option_off. Qed.
+Print Assumptions C07_summary_title_iff_option_off.
 
 (* building a listing entry may write BRD_POSTMASK into the header of a hidden board (newBoardStat); for every
    user that write can only withdraw read access, never grant it *)
